@@ -279,6 +279,19 @@ def run(ctx):
         errs = a.get("errs") or []
         if len(errs) != nerr:
             violations.append({"sig": "todo-not-exempt", "what": "%s: expected %d diagnostic(s), got %r" % (label, nerr, errs), "files": [gen.yaml_doc(cfg)]})
+    # the rules judge the MERGED configuration: the same tag given to a service by two files is a duplicate (whatever the
+    # priorities), and it is reported next to an independent violation of another file
+    mf = [gen.yaml_doc({"services": {"a": {"constructor": "N", "tags": ["h"]}}}),
+          gen.yaml_doc({"services": {"a": {"tags": [{"name": "h", "priority": 5}]}}, "parameters": {"bad name": 1}})]
+    a, b, d = corr.compile_pair(ctx, mf)
+    dist["defect_sets"] += 1
+    for x in d[:1]:
+        if len(corr_fail) < 10:
+            corr_fail.append({"op": "compile:" + x[0], "files": mf, "impl": x[1], "model": x[2]})
+    text = "\n".join(a.get("errs") or [])
+    for key in ('duplicate "h"', "bad name"):
+        if key not in text:
+            violations.append({"sig": "defect-not-reported", "what": "two files: expected a diagnostic mentioning %s among %r" % (key, a.get("errs")), "files": mf})
     # the custom unmarshalers (tag, call, scope shapes) against their model, on generated node trees
     dv, dc, dn = decode_shapes(ctx)
     violations += dv
